@@ -676,6 +676,56 @@ def build(unit_path, out_path, defines=(), canary=None, drop_hints=()):
                 have.add(it.name)
                 items.append({'item': it.name + ' (auto, D8)', 'file': sf.rel, 'line': line_of(sf.src, it.sig_start), 'rules': {}})
     segs += extra
+    # D9: a private helper of a source file that an extracted function now calls but that is not in the unit (a refactoring
+    # extracted it) is pulled in WITHOUT a contract, so that the unit stays readable; functions calling it are marked
+    # `calls_uncontracted`: their obligations can then only be judged with a concrete witness (check: tentative)
+    out_text = ''.join(sg.text for sg in segs)
+    defined = set(re.findall(r'\bfn\s+(\w+)\b', out_text))
+    auto_helpers = []
+    for alias, sf in sources.items():
+        if sf.rel.startswith('verif:'):
+            continue
+        cands = []
+        for it in sf.items:
+            if it.kind == 'fn':
+                cands.append((it.name, it.name))
+            elif it.kind == 'impl' and not it.name[1]:
+                for ch in it.children:
+                    if ch.kind == 'fn':
+                        cands.append((ch.name, '%s::%s' % (it.name[0], ch.name)))
+        for name, qual in cands:
+            if name in defined or name in ('new', 'from', 'default', 'fmt', 'clone', 'eq', 'cmp', 'partial_cmp', 'hash', 'drop', 'next', 'len', 'is_empty'):
+                continue
+            if '::' in qual:
+                ty = qual.split('::')[0]
+                # a method of a type of this file: called as Self::name(..), Type::name(..) or self.name(..)
+                if not re.search(r'(?:\bSelf::|\b%s::|\bself\s*\.\s*)%s\s*\(' % (re.escape(ty), re.escape(name)), body_text):
+                    continue
+            else:
+                # a free function: a plain call, not a method call and not a path into another module
+                if not re.search(r'(?<![A-Za-z0-9_.:])%s\s*\(' % re.escape(name), body_text):
+                    continue
+            part = {'kind': 'fn', 'alias': alias, 'qual': qual, 'kv': {}, 'contract': [], 'loops': {}, 'ats': [], 'attrs': []}
+            try:
+                sg, info = build_fn(part, sf, unit, opts, None, ())
+            except (LostAnchor, rules.Unsupported):
+                continue
+            info['auto_helper'] = True
+            segs += sg
+            fns.append(info)
+            defined.add(name)
+            auto_helpers.append(name)
+    if auto_helpers:
+        for sg in segs:
+            pass
+        for info in fns:
+            if info.get('auto_helper'):
+                continue
+            # which contracted functions call a helper? (textual: the body segments of that function)
+            btxt = ''.join(sg.text for sg in segs if sg.meta.get('fn') == info['fn'] and sg.meta.get('section') == 'body')
+            called = [h for h in auto_helpers if re.search(r'(?<![A-Za-z0-9_])%s\s*\(' % re.escape(h), btxt)]
+            if called:
+                info['calls_uncontracted'] = called
     segs.append(Seg('} // verus!\nfn main() {}\n', None, {}))
     # flatten
     text = ''.join(s.text for s in segs)
